@@ -337,6 +337,9 @@ pub enum PAct {
     ResetStorm(u8),
     /// a non-contributing message on every one of the 16 channels
     TouchAll,
+    /// a short cycle of Control Changes repeated `pump_reps` times in one step, every feed judged by
+    /// the oracle (index into `pump_cycles`): counters that leak or wrap after hundreds of rounds
+    Pump(u16),
 }
 
 pub struct PlainSys<O: PlainOracle> {
@@ -353,6 +356,8 @@ pub struct PlainSys<O: PlainOracle> {
     pub followup_values: Vec<u8>,
     /// reset storms offered as single actions: (number of resets, with traffic on another channel in between)
     pub storms: Vec<(u32, bool)>,
+    pub pump_cycles: Vec<Vec<(u8, u8)>>,
+    pub pump_reps: u32,
     /// controller numbers for which some explored transition changed the state or reported
     pub reacted: Vec<AtomicBool>,
 }
@@ -383,12 +388,55 @@ impl<O: PlainOracle> PlainSys<O> {
             deep_probes: true,
             followup_values: vec![1],
             storms: Vec::new(),
+            pump_cycles: Vec::new(),
+            pump_reps: 300,
             reacted: (0..128).map(|_| AtomicBool::new(false)).collect(),
         }
     }
 
     fn vio(&self, rule: &str, cls: &str, detail: impl FnOnce() -> String) -> Violation {
         Violation::lazy(rule, format!("{}/{}/{}/{}", self.pid, <O::Sc as Scanner>::NAME, rule, cls), detail)
+    }
+
+    /// All cycles of length 1..=max_len over the given controllers (value 1).
+    pub fn with_pumps(mut self, ctrls: &[u8], max_len: usize) -> Self {
+        let mut level: Vec<Vec<(u8, u8)>> = vec![vec![]];
+        for _ in 0..max_len {
+            let mut next = Vec::new();
+            for p in &level {
+                for &c in ctrls {
+                    let mut q = p.clone();
+                    q.push((c, 1));
+                    next.push(q);
+                }
+            }
+            self.pump_cycles.extend(next.iter().cloned());
+            level = next;
+        }
+        self
+    }
+
+    fn pump(&self, s: &PState<O>, cycle: &[(u8, u8)]) -> Step<PState<O>> {
+        let mut cur = s.clone();
+        let mut v = Vec::new();
+        'outer: for it in 0..self.pump_reps {
+            for &(c, val) in cycle {
+                let r = self.do_cc_depth(&cur, c, val, true, 1);
+                if !r.violations.is_empty() {
+                    for mut x in r.violations {
+                        x.signature = format!("{}/pumped", x.signature);
+                        x.detail = format!("in round {} of the pumped cycle {:?}: {}", it + 1, cycle, x.detail);
+                        v.push(x);
+                    }
+                    break 'outer;
+                }
+                match r.next {
+                    Some(n) => cur = n,
+                    None => break 'outer,
+                }
+            }
+        }
+        Step { strict: true, next: if v.is_empty() { Some(cur) } else { None }, obs: 0, violations: v }
     }
 
     /// distinct controller numbers of the alphabet (continuations of the post-reset differential)
@@ -581,6 +629,7 @@ impl<O: PlainOracle> PlainSys<O> {
                 }
                 Step { strict: true, next: Some(PState { sc, m: s.m.clone() }), obs: 0, violations: v }
             }
+            PAct::Pump(i) => self.pump(s, &self.pump_cycles[*i as usize]),
             PAct::ResetProbe => {
                 let mut v = Vec::new();
                 if self.report.reset {
@@ -644,6 +693,11 @@ impl<O: PlainOracle> System for PlainSys<O> {
             }
         }
         out.push(PAct::TouchAll);
+        if depth <= STORM_DEPTH {
+            for i in 0..self.pump_cycles.len() {
+                out.push(PAct::Pump(i as u16));
+            }
+        }
         for i in 0..self.others.len() {
             out.push(PAct::Other(i as u32));
         }
@@ -673,10 +727,10 @@ impl<O: PlainOracle> System for PlainSys<O> {
         Some(debug_fp(&s.sc, 0, 0))
     }
     fn n_classes(&self) -> usize {
-        8
+        9
     }
     fn class_name(&self, i: usize) -> String {
-        ["feed-contributing-cc", "feed-cc-probe(concretisation)", "feed-must-be-transparent", "reset", "reset-probe", "feed-non-contributing(expanded)", "reset-storm", "touch-all-16-channels"][i].to_string()
+        ["feed-contributing-cc", "feed-cc-probe(concretisation)", "feed-must-be-transparent", "reset", "reset-probe", "feed-non-contributing(expanded)", "reset-storm", "touch-all-16-channels", "pumped-cycle"][i].to_string()
     }
     fn class_of(&self, a: &PAct) -> usize {
         match a {
@@ -688,6 +742,7 @@ impl<O: PlainOracle> System for PlainSys<O> {
             PAct::Other(..) => 5,
             PAct::ResetStorm(..) => 6,
             PAct::TouchAll => 7,
+            PAct::Pump(..) => 8,
         }
     }
     fn render(&self, a: &PAct) -> String {
@@ -706,6 +761,7 @@ impl<O: PlainOracle> System for PlainSys<O> {
             PAct::ResetProbe => "resetprobe".to_string(),
             PAct::ResetStorm(i) => format!("resetstorm:{}:{}", self.storms[*i as usize].0, self.storms[*i as usize].1),
             PAct::TouchAll => "touchall".to_string(),
+            PAct::Pump(i) => format!("pump:{}x{:?}", self.pump_reps, self.pump_cycles[*i as usize]).replace(' ', ""),
         }
     }
     fn rust_preamble(&self) -> String {
@@ -732,6 +788,7 @@ impl<O: PlainOracle> System for PlainSys<O> {
                 }
             }
             PAct::TouchAll => "for c in 0..16 { scanner.feed(&helgoboss_midi::test_util::note_on(c, 1, 1)); }".to_string(),
+            PAct::Pump(i) => format!("for _ in 0..{} {{ for (n, v) in {:?} {{ scanner.feed(&helgoboss_midi::test_util::control_change({}, n, v)); }} }}", self.pump_reps, self.pump_cycles[*i as usize], self.ch),
         }
     }
 }
